@@ -206,6 +206,11 @@ func Max[T constraints.Numeric]() func(Observable[T]) Observable[T] {
 					},
 					destination.ErrorWithContext,
 					func(ctx context.Context) {
+						if first {
+							// nothing was emitted: there is no item context, use the completion one
+							mAx.A = ctx
+						}
+
 						destination.NextWithContext(mAx.A, mAx.B)
 						destination.CompleteWithContext(ctx)
 					},
